@@ -59,14 +59,37 @@ def run(rep):
     for r in tlcs:
         rep.add_tlc(r)
     wd = common.scratch('c01_%d' % os.getpid())
-    claims = [export.all_claims(p) for p in progs]
+    # programs on which the analyses crash are kept for the replay (conversion will fail there: a C01 violation)
+    claims = []
+    for p in progs:
+        try:
+            claims.append(export.all_claims(p))
+        except common.MachineryError:
+            raise
+        except Exception:
+            claims.append(None)
+    explorable = [i for i, c in enumerate(claims) if c is not None]
     cf = os.path.join(wd, 'claims.json')
     with open(cf, 'w') as f:
-        json.dump(claims, f)
-    res, wd2 = mprun.explore(progs, module='Liveness', spec='MSpec', invariants=('Report',), env=dict(CLAIM_FILE=cf),
-                             bounds=mpmon.bounds(tier), name='c01', timeout=3000)
-    rep.add_tlc(res)
-    recs = res.json
+        json.dump([claims[i] for i in explorable], f)
+    recs = []
+    if explorable:
+        res, wd2 = mprun.explore([progs[i] for i in explorable], module='Liveness', spec='MSpec', invariants=('Report',),
+                                 env=dict(CLAIM_FILE=cf), bounds=mpmon.bounds(tier), name='c01', timeout=3000)
+        rep.add_tlc(res)
+        for r in res.json:
+            r['pid'] = explorable[r['pid'] - 1] + 1
+        recs = res.json
+    rest = [i for i in range(len(progs)) if claims[i] is None]
+    if rest:    # explored without a monitor (plain MiniPy) so that the conversion failure is demonstrated on real executions
+        res2, wd3 = mprun.explore([progs[i] for i in rest], bounds=mpmon.bounds(tier), name='c01b', timeout=3000)
+        rep.add_tlc(res2)
+        for r in res2.json:
+            r['pid'] = rest[r['pid'] - 1] + 1
+        recs = recs + res2.json
+        common.rmtree(wd3)
+        if not explorable:
+            wd2 = wd
     mprun.validate_model(progs, recs)
     opts = rp.OPTION_SETS if tier == 'thorough' else rp.OPTION_SETS[:1] + rp.OPTION_SETS[3:4]
     div, nrun, errs = rp.replay_all(progs, recs, opts, name='c01')
